@@ -105,7 +105,7 @@ Definition crash_points (order : list nat) (s : st) (o : op) : list (nat * st) :
       | _ => []
       end
   | Cleanup _ =>
-      if closed s || Nat.eqb (seq s) 0 then [] else
+      if closed s then [] else
       if order_ok order (cleanup_list s false)
       then cleanup_points s (meta s) (seq s) true (dirs s) (map DId order) else []
   | Close _ =>
